@@ -194,6 +194,16 @@ func modelV2(doc M) M {
 				collect(op["parameters"])
 				om["params"] = params
 				if body != nil {
+					// the media types the body may arrive in: the operation's consumes, else the
+					// document's, else any
+					mts, _ := op["consumes"].([]any)
+					if len(mts) == 0 {
+						mts, _ = doc["consumes"].([]any)
+					}
+					if len(mts) == 0 {
+						mts = []any{"*/*"} // nothing said: any media type (the converter's reading)
+					}
+					body["mediaTypes"] = sortedStrings(mts)
 					om["body"] = body
 				}
 				if len(form) > 0 {
@@ -385,6 +395,13 @@ func modelV3(doc M) M {
 						if b, _ := rb["required"].(bool); b {
 							body["required"] = true
 						}
+						var mts []any
+						if c, ok := rb["content"].(M); ok {
+							for ct := range c {
+								mts = append(mts, ct)
+							}
+						}
+						body["mediaTypes"] = sortedStrings(mts)
 						om["body"] = body
 					}
 				}
@@ -510,4 +527,17 @@ func firstDiff(a, b any, path string) string {
 		}
 	}
 	return path + " changed"
+}
+
+func sortedStrings(l []any) []any {
+	ss := make([]string, 0, len(l))
+	for _, x := range l {
+		ss = append(ss, fmt.Sprint(x))
+	}
+	sort.Strings(ss)
+	out := make([]any, len(ss))
+	for i, x := range ss {
+		out[i] = x
+	}
+	return out
 }
